@@ -55,6 +55,9 @@ func updaterFunc(u *m.Updater, res *Result) func(*document.Document) *document.D
 		for _, k := range m.SortedKeys(u.Set) {
 			target.Set(k, m.Clone(u.Set[k]))
 		}
+		if u.BadFor != "" && doc.ObjectId() == u.BadFor {
+			target.Set("_expiresAt", "not a time")
+		}
 		return target
 	}
 }
